@@ -42,12 +42,19 @@
       (X16 with tmp = dst, as the Go wrapper calls it) against the specification;
     * `asm_arm64_test_expandKey`: the A.1 key through `expandKeyAsm` gives the standard's round keys, forwards in
       `enc`, backwards in `dec`.
-  NOT PROVED IN GENERAL: `cryptoBlockAsmX16Internal` (its round macro `subRoundX16` stashes the state of 16 blocks
-  in the 256-byte `tmp` buffer — which the Go wrapper makes the SAME buffer as `dst` — and reloads it several times
-  per round): one kernel-evaluated test only.  X2 / X4 / X8 called in place (dst = src) are not stated: that shape
-  does not occur — `cryptoBlocks` of sm4/sm4_gcm_arm64.go calls every wide kernel as
-  `cryptoBlockAsmXn(&roundKeys[0], &tmp[0], &counter[0])` with two distinct local arrays, which is the disjoint
-  shape proved above (only `cryptoBlockAsm` is reached with dst = src, through `Encrypt(b, b)`; proved).
+  `asm_arm64_cryptoBlockAsmX16_eq_spec`: the listing of `cryptoBlockAsmX16Internal` in the calling shape of the Go
+  wrapper `cryptoBlockAsmX16(rk, dst, src) = cryptoBlockAsmX16Internal(rk, dst, src, dst)` (sm4/sm4_asm_arm64.go: the
+  256-byte scratch buffer `tmp` IS `dst`; `src` disjoint, as `cryptoBlocks` of sm4/sm4_gcm_arm64.go calls it) leaves
+  `Spec.SM4.crypt rk` of each of the sixteen blocks in dst, for all round keys, all blocks, any register / destination
+  contents.  Memory invariant between sub-rounds: the buffer holds the byte images of the sixteen state registers;
+  the epilogue writes dst[0..127] (over the stash of the first half) BEFORE it reloads dst[128..255].
+  NOT STATED: X2 / X4 / X8 / X16 called in place (dst = src): that shape does not occur — `cryptoBlocks` calls every
+  wide kernel as `cryptoBlockAsmXn(&roundKeys[0], &tmp[0], &counter[0])` with two distinct local arrays, which is the
+  disjoint shape proved here (only `cryptoBlockAsm` is reached with dst = src, through `Encrypt(b, b)`; proved).
+  `cryptoBlockAsmX16Internal` with a `tmp` buffer distinct from `dst` (no caller does that): the kernel-evaluated
+  test of an earlier revision only.
+  NON-VACUITY: the `example`s at the end instantiate every headline theorem on a concrete entry state (the registers
+  `junkG` / `junkV`, the GB/T 32907 A.1 key and round keys), discharging all premises by evaluation.
 -/
 import SMGo.Proofs.ISAValArm64Spec
 import SMGo.Proofs.ISAValArm64Wide
@@ -55,6 +62,7 @@ import SMGo.Proofs.ISAValArm64Tests
 import SMGo.Proofs.ISAValArm64ExpandSpec
 import SMGo.Proofs.ISAValArm64X2
 import SMGo.Proofs.ISAValArm64X8Spec
+import SMGo.Proofs.ISAValArm64X16Final
 namespace SMGo.Props.C05Arm64
 open SMGo
 open SMGo.Model.ISAValArm64
@@ -147,6 +155,32 @@ theorem asm_arm64_cryptoBlockAsmX8_eq_spec (g v rk dst0 src : List Nat)
       = .ok ((specBlock rk src 0 ++ (specBlock rk src 1 ++ (specBlock rk src 2 ++ specBlock rk src 3))) ++
              (specBlock rk src 4 ++ (specBlock rk src 5 ++ (specBlock rk src 6 ++ specBlock rk src 7)))) :=
   kernelX8_eq_spec g v rk dst0 src hg hv hrk hrkb hsrc hsb hdst
+
+open Proofs.ISAValArm64 in
+/-- **The arm64 listing of `cryptoBlockAsmX16Internal`, called as the Go wrapper `cryptoBlockAsmX16(rk, dst, src)`
+    calls it — `tmp` = `dst` (`kernelStateX16Go`: the frame slot `tmp` holds the address of the 256-byte destination),
+    `src` a different buffer — computes sixteen SM4 block functions of the specification**: `spec16 rk src` is the
+    concatenation of `specBlock rk src e`, e = 0..15.  For all round keys, all 256 source bytes, whatever the
+    registers and the destination hold at entry.  Round lemma `sub16_spec` (`subRoundX16`, 102 instructions with six
+    reloads and four stashes of 64 bytes), memory invariant `Ready16` (the buffer = the byte images `img` of the
+    sixteen state registers), `prologue16_spec`, `epilogue16_spec` (dst[0..127] is overwritten before dst[128..255]
+    is reloaded). -/
+theorem asm_arm64_cryptoBlockAsmX16_eq_spec (g v rk dst0 src : List Nat)
+    (hg : g.length = 31) (hv : v.length = 32) (hrk : rk.length = 32) (hrkb : ∀ x ∈ rk, x < 2 ^ 32)
+    (hsrc : src.length = 256) (hsb : ∀ x ∈ src, x < 256) (hdst : dst0.length = 256) :
+    runDst Gen.ListArm64Asm.cryptoBlockAsmX16Internal Gen.ListArm64AsmArr.cryptoBlockAsmX16Internal_arr
+        (kernelStateX16Go g v rk dst0 src)
+      = .ok (spec16 rk src) :=
+  kernelX16_eq_spec g v rk dst0 src hg hv hrk hrkb hsrc hsb hdst
+
+open Proofs.ISAValArm64 in
+/-- `spec16` unfolded: the sixteen `specBlock`s in order -/
+theorem asm_arm64_spec16 (rk src : List Nat) :
+    spec16 rk src
+      = (specBlock rk src 0 ++ (specBlock rk src 1 ++ (specBlock rk src 2 ++ specBlock rk src 3))) ++
+        ((specBlock rk src 4 ++ (specBlock rk src 5 ++ (specBlock rk src 6 ++ specBlock rk src 7))) ++
+        ((specBlock rk src 8 ++ (specBlock rk src 9 ++ (specBlock rk src 10 ++ specBlock rk src 11))) ++
+         (specBlock rk src 12 ++ (specBlock rk src 13 ++ (specBlock rk src 14 ++ specBlock rk src 15))))) := rfl
 
 open Proofs.ISAValArm64 in
 /-- `specBlock` unfolded -/
@@ -259,6 +293,72 @@ theorem asm_arm64_test_expandKey :
              ((Spec.SM4.keySchedule (Proofs.ISAValTests.keyStd.map UInt8.ofNat)).reverse.map (·.toNat))) :=
   Proofs.ISAValArm64Tests.test_expandKey_spec
 
+/-! ### non-vacuity: every headline theorem instantiated on a concrete entry state -/
+
+section NonVacuity
+set_option maxRecDepth 100000
+
+example : runDst Gen.ListArm64Asm.cryptoBlockAsm Gen.ListArm64AsmArr.cryptoBlockAsm_arr
+      (kernelState junkG junkV Proofs.ISAValTests.rkStd (List.replicate 16 0) Proofs.ISAValTests.keyStd)
+    = .ok ((Spec.SM4.crypt (Proofs.ISAValTests.rkStd.map (BitVec.ofNat 32)) (Proofs.ISAValTests.keyStd.map UInt8.ofNat)).map (·.toNat)) :=
+  asm_arm64_cryptoBlockAsm_eq_spec junkG junkV Proofs.ISAValTests.rkStd (List.replicate 16 0) Proofs.ISAValTests.keyStd (by decide) (by decide) (by decide)
+    (by decide) (by decide) (by decide) (by decide)
+
+example : runDst Gen.ListArm64Asm.cryptoBlockAsm Gen.ListArm64AsmArr.cryptoBlockAsm_arr
+      (kernelStateInPlace junkG junkV Proofs.ISAValTests.rkStd Proofs.ISAValTests.keyStd)
+    = .ok ((Spec.SM4.crypt (Proofs.ISAValTests.rkStd.map (BitVec.ofNat 32)) (Proofs.ISAValTests.keyStd.map UInt8.ofNat)).map (·.toNat)) :=
+  asm_arm64_cryptoBlockAsm_inplace_eq_spec junkG junkV Proofs.ISAValTests.rkStd Proofs.ISAValTests.keyStd (by decide) (by decide) (by decide) (by decide)
+    (by decide) (by decide)
+
+example : runExpandKey (expandKeyState junkG junkV Proofs.ISAValTests.keyStd (List.replicate 128 0) (List.replicate 128 0))
+    = .ok ((Spec.SM4.keySchedule (Proofs.ISAValTests.keyStd.map UInt8.ofNat)).map (·.toNat),
+           (Spec.SM4.keySchedule (Proofs.ISAValTests.keyStd.map UInt8.ofNat)).reverse.map (·.toNat)) :=
+  asm_arm64_expandKeyAsm_eq_spec junkG junkV Proofs.ISAValTests.keyStd _ _ (by decide) (by decide) (by decide) (by decide) (by decide)
+    (by decide)
+
+example : ∃ enc dec, runExpandKey (expandKeyState junkG junkV Proofs.ISAValTests.keyStd (List.replicate 128 0) (List.replicate 128 0))
+      = .ok (enc, dec)
+    ∧ runDst Gen.ListArm64Asm.cryptoBlockAsm Gen.ListArm64AsmArr.cryptoBlockAsm_arr
+        (kernelState junkG junkV enc (List.replicate 16 0) Proofs.ISAValTests.keyStd)
+      = .ok ((Spec.SM4.encrypt (Proofs.ISAValTests.keyStd.map UInt8.ofNat) (Proofs.ISAValTests.keyStd.map UInt8.ofNat)).map (·.toNat))
+    ∧ runDst Gen.ListArm64Asm.cryptoBlockAsm Gen.ListArm64AsmArr.cryptoBlockAsm_arr
+        (kernelState junkG junkV dec (List.replicate 16 0) Proofs.ISAValTests.keyStd)
+      = .ok ((Spec.SM4.decrypt (Proofs.ISAValTests.keyStd.map UInt8.ofNat) (Proofs.ISAValTests.keyStd.map UInt8.ofNat)).map (·.toNat)) :=
+  C05_asm_arm64 junkG junkV junkG junkV Proofs.ISAValTests.keyStd _ _ _ Proofs.ISAValTests.keyStd (by decide) (by decide) (by decide) (by decide) (by decide)
+    (by decide) (by decide) (by decide) (by decide) (by decide) (by decide)
+
+open Proofs.ISAValArm64 in
+example : runDst Gen.ListArm64Asm.cryptoBlockAsmX2 Gen.ListArm64AsmArr.cryptoBlockAsmX2_arr
+      (kernelState junkG junkV Proofs.ISAValTests.rkStd (List.replicate 32 0) (Proofs.ISAValTests.blocks16.take 32))
+    = .ok (specBlock Proofs.ISAValTests.rkStd (Proofs.ISAValTests.blocks16.take 32) 0 ++ specBlock Proofs.ISAValTests.rkStd (Proofs.ISAValTests.blocks16.take 32) 1) :=
+  asm_arm64_cryptoBlockAsmX2_eq_spec junkG junkV Proofs.ISAValTests.rkStd _ _ (by decide) (by decide) (by decide) (by decide) (by decide)
+    (by decide) (by decide)
+
+open Proofs.ISAValArm64 in
+example : runDst Gen.ListArm64Asm.cryptoBlockAsmX4 Gen.ListArm64AsmArr.cryptoBlockAsmX4_arr
+      (kernelState junkG junkV Proofs.ISAValTests.rkStd (List.replicate 64 0) (Proofs.ISAValTests.blocks16.take 64))
+    = .ok (specBlock Proofs.ISAValTests.rkStd (Proofs.ISAValTests.blocks16.take 64) 0 ++ (specBlock Proofs.ISAValTests.rkStd (Proofs.ISAValTests.blocks16.take 64) 1
+        ++ (specBlock Proofs.ISAValTests.rkStd (Proofs.ISAValTests.blocks16.take 64) 2 ++ specBlock Proofs.ISAValTests.rkStd (Proofs.ISAValTests.blocks16.take 64) 3))) :=
+  asm_arm64_cryptoBlockAsmX4_eq_spec junkG junkV Proofs.ISAValTests.rkStd _ _ (by decide) (by decide) (by decide) (by decide) (by decide)
+    (by decide) (by decide)
+
+open Proofs.ISAValArm64 in
+example : runDst Gen.ListArm64Asm.cryptoBlockAsmX8 Gen.ListArm64AsmArr.cryptoBlockAsmX8_arr
+      (kernelState junkG junkV Proofs.ISAValTests.rkStd (List.replicate 128 0) (Proofs.ISAValTests.blocks16.take 128))
+    = .ok ((specBlock Proofs.ISAValTests.rkStd (Proofs.ISAValTests.blocks16.take 128) 0 ++ (specBlock Proofs.ISAValTests.rkStd (Proofs.ISAValTests.blocks16.take 128) 1 ++ (specBlock Proofs.ISAValTests.rkStd (Proofs.ISAValTests.blocks16.take 128) 2 ++ specBlock Proofs.ISAValTests.rkStd (Proofs.ISAValTests.blocks16.take 128) 3))) ++
+        (specBlock Proofs.ISAValTests.rkStd (Proofs.ISAValTests.blocks16.take 128) 4 ++ (specBlock Proofs.ISAValTests.rkStd (Proofs.ISAValTests.blocks16.take 128) 5 ++ (specBlock Proofs.ISAValTests.rkStd (Proofs.ISAValTests.blocks16.take 128) 6 ++ specBlock Proofs.ISAValTests.rkStd (Proofs.ISAValTests.blocks16.take 128) 7)))) :=
+  asm_arm64_cryptoBlockAsmX8_eq_spec junkG junkV Proofs.ISAValTests.rkStd _ _ (by decide) (by decide) (by decide) (by decide) (by decide)
+    (by decide) (by decide)
+
+open Proofs.ISAValArm64 in
+example : runDst Gen.ListArm64Asm.cryptoBlockAsmX16Internal Gen.ListArm64AsmArr.cryptoBlockAsmX16Internal_arr
+      (kernelStateX16Go junkG junkV Proofs.ISAValTests.rkStd (List.replicate 256 0) Proofs.ISAValTests.blocks16)
+    = .ok (spec16 Proofs.ISAValTests.rkStd Proofs.ISAValTests.blocks16) :=
+  asm_arm64_cryptoBlockAsmX16_eq_spec junkG junkV Proofs.ISAValTests.rkStd _ _ (by decide) (by decide) (by decide) (by decide) (by decide)
+    (by decide) (by decide)
+
+end NonVacuity
+
 end SMGo.Props.C05Arm64
 
 #print axioms SMGo.Props.C05Arm64.asm_arm64_cryptoBlockAsm_eq_spec
@@ -268,6 +368,8 @@ end SMGo.Props.C05Arm64
 #print axioms SMGo.Props.C05Arm64.asm_arm64_cryptoBlockAsmX2_eq_spec
 #print axioms SMGo.Props.C05Arm64.asm_arm64_cryptoBlockAsmX4_eq_spec
 #print axioms SMGo.Props.C05Arm64.asm_arm64_cryptoBlockAsmX8_eq_spec
+#print axioms SMGo.Props.C05Arm64.asm_arm64_cryptoBlockAsmX16_eq_spec
+#print axioms SMGo.Props.C05Arm64.asm_arm64_spec16
 #print axioms SMGo.Props.C05Arm64.asm_arm64_specBlock
 #print axioms SMGo.Props.C05Arm64.asm_arm64_lookup_is_sbox
 #print axioms SMGo.Props.C05Arm64.asm_arm64_shl_sri_is_rotl
